@@ -120,9 +120,48 @@ def handle_joint(req):
         return {"status": "compute-error", "error": f"{type(ex).__name__}: {ex}"[:300]}
 
 
+def _flat(x):
+    if isinstance(x, list):
+        out = []
+        for e in x:
+            out.extend(_flat(e))
+        return out
+    return [x]
+
+
+def handle_tree(t):
+    """the PartialReduce chain `_tree_reduce` builds for a reduction of a grid of 1-element blocks: per level the
+    layer's key structure (output key -> input keys in lol order), the split_every dict of the node, the result's numblocks"""
+    try:
+        x = da.ones(tuple(t["numblocks"]), chunks=1)
+        axis = t["axis"]
+        axis = tuple(axis) if isinstance(axis, list) else axis
+        se = t["split_every"]
+        if isinstance(se, dict):
+            se = {int(k): v for k, v in se.items()}
+        r = getattr(da, t["fn"])(x, axis=axis, keepdims=t["keepdims"], split_every=se)
+        e = r.expr
+        levels = []
+        while type(e).__name__ == "PartialReduce":
+            lay = e._layer()
+            rnd = [[list(k[1:]), [list(i[1:]) for i in _flat(task[1])]] for k, task in lay.items()]
+            levels.append({"round": rnd, "split": {str(k): int(v) for k, v in e.split_every.items()}, "keepdims": bool(e.keepdims),
+                           "nkeys": len(lay), "in_numblocks": [int(n) for n in e.array.numblocks]})
+            e = e.array
+        levels.reverse()
+        return {"status": "ok", "levels": levels, "numblocks": [int(n) for n in r.numblocks],
+                "value": P.enc_value(r.compute()), "lazy_shape": [int(s) for s in r.shape]}
+    except NotImplementedError as ex:
+        return {"status": "unsupported", "error": str(ex)[:200]}
+    except Exception as ex:
+        return {"status": "error", "error": f"{type(ex).__name__}: {ex}"[:300]}
+
+
 def handle(req):
     if "progs" in req:
         return handle_joint(req)
+    if "tree" in req:
+        return handle_tree(req["tree"])
     prog = req["prog"]
     out = {}
     try:
